@@ -52,6 +52,7 @@ Record rcfg := mkrcfg {
   r_no_cache : bool;
   r_skipn : nat;                                  (* skip_after_n_transforms; 0/None = off *)
   r_save_temps : bool;
+  r_thr_num : Z; r_thr_den : Z;                   (* stopping_threshold as a fraction (default 1/1) *)
   r_fuel : nat                                    (* bound on candidates per round / rounds per file in the model *)
 }.
 
@@ -203,15 +204,22 @@ Fixpoint run_list (rc:rcfg) (ps:list pass) (m:mst) (acc:list disk) : mst * fexit
               end
   end.
 
-Fixpoint main_loop (fuel:nat) (rc:rcfg) (ps:list pass) (m:mst) (acc:list disk) : mst * fexit * list disk :=
+(* improvement = (orig - total) / orig >= stopping_threshold, evaluated with the size at the
+   start of the iteration (cvise/cvise.py:188-203) *)
+Definition threshold_met (rc:rcfg) (orig total:Z) : bool :=
+  Z.leb (r_thr_num rc * orig) ((orig - total) * r_thr_den rc).
+
+Fixpoint main_loop (fuel:nat) (rc:rcfg) (orig:Z) (ps:list pass) (m:mst) (acc:list disk) : mst * fexit * list disk :=
   match fuel with
   | 0 => (m, FFuel, acc)
   | S fu =>
     let total := total_size (m_disk m) in
+    if threshold_met rc orig total && negb (match ps with [] => true | _ => false end) then (m, FNormal, acc)
+    else
     let '(m', e, acc') := run_list rc ps m acc in
     match e with
     | FNormal => if Z.leb total (total_size (m_disk m')) then (m', FNormal, acc')
-                 else main_loop fu rc ps m' acc'
+                 else main_loop fu rc orig ps m' acc'
     | _ => (m', e, acc')
     end
   end.
@@ -222,7 +230,7 @@ Definition reduce (rc:rcfg) (first main last:list pass) (m:mst) : mst * fexit * 
     let '(m1, e1, a1) := run_list rc first m [] in
     match e1 with
     | FNormal =>
-      let '(m2, e2, a2) := main_loop (S (Z.to_nat (total_size (m_disk m1)))) rc main m1 a1 in
+      let '(m2, e2, a2) := main_loop (S (Z.to_nat (total_size (m_disk m1)))) rc (total_size (m_disk m)) main m1 a1 in
       match e2 with
       | FNormal => run_list rc last m2 a2
       | _ => (m2, e2, a2)
